@@ -25,25 +25,30 @@ Theorem C06_sequences_concatenate : forall ms buf rs out,
   exists bss, alone_all encode ms = Ok (rs, bss) /\ out = buf ++ concat bss.
 Proof. exact (sequence_concat encode senc typed encode_spec). Qed.
 
-(* repeatable: encoding the object again (as Encode left it) produces the same bytes and leaves it as it is.
-   Proved here for the canonical domain of C01 and the 166 types without self-computed fields, as a consequence of
-   the round trip (C01) and of re-encoding (C08); for the four frames and for non-canonical values (over-long text
-   that is cut, absent parts that are filled in) repeatability is checked by the direct oracle only. *)
+(* repeatable: encoding the object again (as Encode left it: absent parts filled in, the frame's length and checksum
+   set) produces the same bytes and leaves it as it is - for EVERY well-typed value on which Encode succeeds (values
+   outside the round-trip domain included: over-long text that is cut, absent parts, stale computed fields), all 170
+   types.  Encode also leaves a well-typed message well-typed. *)
 From FP.Props Require C01 C08.
-From FP.Theory Require Import RoundTrip DecTyped.
-Theorem C06_repeatable_partial : forall t fs fs' bs,
-  is_plain schemas t = true -> typed t fs = true -> canon_env tables registry0 schemas t fs ->
-  encode t fs [] = Ok (fs', bs) ->
-  typed t fs' = true /\ forall out, encode t fs' out = Ok (fs', out ++ bs).
+From FP.Theory Require Import EncTyped.
+Lemma H_fills : fills_ok_env schemas = true.
+Proof. vm_compute. reflexivity. Qed.
+
+Theorem C06_encode_preserves_typing : forall t fs buf fs' buf',
+  typed t fs = true -> encode t fs buf = Ok (fs', buf') -> typed t fs' = true.
 Proof.
-  intros t fs fs' bs Hp Ht Hc He.
+  intros t fs buf fs' buf' Ht He. rewrite encode_spec in He by exact Ht.
+  destruct (senc t fs) as [[a b]|] eqn:E; cbn [lift] in He; [|discriminate]. inversion He; subst a buf'.
+  rewrite <- C08.H_sigs in *. exact (enc_typed tables registry0 C01.H_calc schemas C08.H_types H_fills t fs fs' b Ht E).
+Qed.
+
+Theorem C06_repeatable : forall t fs fs' bs,
+  typed t fs = true -> encode t fs [] = Ok (fs', bs) -> forall out, encode t fs' out = Ok (fs', out ++ bs).
+Proof.
+  intros t fs fs' bs Ht He out. pose proof (C06_encode_preserves_typing t fs [] fs' bs Ht He) as Ht'.
   rewrite encode_spec in He by exact Ht. destruct (senc t fs) as [[a b]|] eqn:E; cbn [lift app] in He; [|discriminate].
-  inversion He; subst a b.
-  pose proof (spec_round_trip tables registry0 C01.H_calc schemas C01.H_rt C01.H_dec_safe t fs fs' bs Hc E []) as Hd.
-  assert (Ht' : typed t fs' = true) by (rewrite <- C08.H_sigs; exact (dec_typed tables schemas C08.H_types t _ fs' [] Hd)).
-  split; [exact Ht'|]. intro out.
-  destruct (spec_reencode_plain tables registry0 schemas C08.H_reenc t _ fs' [] Hp Hd) as [pre [Hb Hs]].
-  rewrite !app_nil_r in Hb. subst pre. rewrite encode_spec by exact Ht'. rewrite Hs. reflexivity.
+  inversion He; subst a b. rewrite encode_spec by exact Ht'.
+  rewrite (spec_enc_idempotent tables registry0 schemas t fs fs' bs E). reflexivity.
 Qed.
 
 (* non-vacuity: a concrete SSE frame with a Logon body is well typed and encodes *)
@@ -59,4 +64,5 @@ Proof. vm_compute. repeat split; reflexivity. Qed.
 Print Assumptions C06_append_only_context_free.
 Print Assumptions C06_failure_context_free.
 Print Assumptions C06_sequences_concatenate.
-Print Assumptions C06_repeatable_partial.
+Print Assumptions C06_encode_preserves_typing.
+Print Assumptions C06_repeatable.
